@@ -1113,6 +1113,9 @@ for _n in ("pickle.load", "pickle.loads", "json.load", "json.loads"):
         interp.log("persist.load", node, how=_n, src=args[0], lid=k)
         # reading a file of the other format fails: both outcomes are explored
         may_raise(interp, node, "JSONDecodeError" if _n.startswith("json") else "UnpicklingError", (_n,))
+        if _n.startswith("json"):
+            # the bytes of a pickle are in general not UTF-8: json fails on them before it parses anything
+            may_raise(interp, node, "UnicodeDecodeError", (_n,))
         interp.log("persist.loaded", node, how=_n, lid=k)
         return Sym(("loaded", _n, k))
 
@@ -1237,6 +1240,8 @@ def call_method(interp, obj, name, args, kwargs, node):
             return wcnf_method(interp, obj, o, name, args, kwargs, node)
         if isinstance(o, HOpaque):
             return opaque_method(interp, obj, o, name, args, kwargs, node)
+        if isinstance(o, HObj) and name in ("copy", "update", "items", "keys", "values", "get", "pop", "setdefault"):
+            return objdict_method(interp, obj, o, name, args, kwargs, node)
     if isinstance(obj, Const) and isinstance(obj.value, str):
         return str_method(interp, obj, name, args, kwargs, node)
     if isinstance(obj, ElemV):
@@ -1271,6 +1276,62 @@ def call_method(interp, obj, name, args, kwargs, node):
         return Const(len(terms) == 1 and c == 0 and terms[0][1] == 1 and isinstance(terms[0][0], tuple) and terms[0][0][:1] == ("isym",))
     interp.log("call.method", node, obj=obj, method=name, args=tuple(args), kwargs=dict(kwargs))
     return Sym(("mcall", desc(obj), name, tuple(desc(a) for a in args), interp.fresh_id("c")))
+
+
+def objdict_method(interp, ref, o: HObj, name, args, kwargs, node):
+    """Methods of ``obj.__dict__`` (the object seen as the dict of its attributes; writes go through to the object)."""
+    if name == "copy":
+        r = interp.alloc(HDict(entries=dict(o.attrs)))
+        interp.log("objdict.copy", node, obj=ref, dst=r)
+        return r
+    if name == "update":
+        src = args[0] if args else None
+        interp.log("objdict.update", node, obj=ref, src=src, kwargs=dict(kwargs))
+        if isinstance(src, Ref):
+            d = interp.deref(src)
+            if isinstance(d, HDict):
+                for k, v in d.entries.items():
+                    if isinstance(k, str):
+                        o.attrs[k] = v
+                        interp.log("attr.set", node, obj=ref, attr=k, value=v)
+                if d.each or d.sym:
+                    o.attrs["*"] = Sym(("updated-from", desc(src)))
+        elif src is not None:
+            o.attrs["*"] = Sym(("updated-from", desc(src)))
+        for k, v in kwargs.items():
+            o.attrs[k] = v
+            interp.log("attr.set", node, obj=ref, attr=k, value=v)
+        return Const(None)
+    if name in ("items", "keys", "values"):
+        segs = []
+        for k, v in o.attrs.items():
+            segs.append(("one", Const(k) if name == "keys" else (v if name == "values" else TupleV((Const(k), v)))))
+        return interp.alloc(HList(segs))
+    if name == "get":
+        k = args[0]
+        if isinstance(k, Const):
+            return o.attrs.get(k.value, args[1] if len(args) > 1 else Const(None))
+        return Sym(("attr-of", ("ref", ref.oid), desc(k)))
+    if name == "pop":
+        k = args[0]
+        if isinstance(k, Const):
+            interp.log("attr.del", node, obj=ref, attr=k.value)
+            if k.value in o.attrs:
+                return o.attrs.pop(k.value)
+            if len(args) > 1:
+                return args[1]
+            from .absint import RaiseSig
+            raise RaiseSig(ExcV("KeyError", ("key", desc(k))), node)
+        interp.err(node, "pop of a computed attribute name")
+    if name == "setdefault":
+        k = args[0]
+        if isinstance(k, Const):
+            if k.value not in o.attrs:
+                o.attrs[k.value] = args[1] if len(args) > 1 else Const(None)
+                interp.log("attr.set", node, obj=ref, attr=k.value, value=o.attrs[k.value])
+            return o.attrs[k.value]
+        interp.err(node, "setdefault of a computed attribute name")
+    interp.err(node, f"unsupported method {name} on an object's __dict__")
 
 
 def list_method(interp, ref, o: HList, name, args, kwargs, node):
